@@ -77,6 +77,14 @@ func genAsmHistory(r *sim.Rand, maxOps int, maxSize int, withRefs bool, straight
 		}
 		size += s
 		ops = append(ops, op)
+		// the same call issued twice in a row (identical comment, data block, instruction)
+		if op.K != "label" && r.Chance(1, 15) && size+s <= maxSize {
+			size += s
+			ops = append(ops, op)
+			if op.K == "rep" || op.K == "sep" || op.K == "arep" || op.K == "asep" {
+				flags = applyFlagOp(flags, op)
+			}
+		}
 	}
 	return ops, size
 }
@@ -90,9 +98,18 @@ func (c19) Gen(r *sim.Rand, tier string, run uint64) *sim.Scenario {
 		// as a whole
 		a := r.Intn(len(ops))
 		b := a + 1 + r.Intn(len(ops)-a)
+		emittedBefore := 0
+		for _, op := range ops[:a] {
+			emittedBefore += opSize(op)
+		}
 		var out []sim.Op
 		out = append(out, ops[:a]...)
 		out = append(out, sim.Op{K: "clone"})
+		if emittedBefore == 0 && r.Chance(1, 2) {
+			// the clone is re-based before its first emission (a routine assembled for another
+			// address), possibly below the parent's own base
+			out = append(out, sim.Op{K: "setbase", N: []int64{int64(sim.PickInt(r, 0x7E2000, 0x000100, 0x008000, r.Intn(1<<24)))}})
+		}
 		out = append(out, ops[a:b]...)
 		out = append(out, sim.Op{K: "append"})
 		out = append(out, ops[b:]...)
